@@ -1,6 +1,7 @@
 (* C01 - Write then read returns the same packet, field for field. *)
 From MQ Require Import Model.Stream Model.Api Proofs.BytesP Proofs.VbP Proofs.WireP Proofs.StreamP Proofs.EncP
-     Proofs.FrameP Proofs.DispatchP Proofs.PropsP Proofs.RoundP Proofs.DomP.
+     Proofs.FrameP Proofs.DispatchP Proofs.PropsP Proofs.RoundP Proofs.DomP Model.AccIR Proofs.AccP gen.GenAcc gen.SyncAcc.
+From Coq Require Import String.
 
 (* Proved: (1) every wire type round-trips over an arbitrary suffix, for
    every value inside MQTT's limits; (2) the frame layer: what WriteTo
@@ -155,3 +156,18 @@ Example C01_examples :
          SetWillDelayInterval 5]);
     (KPublish, run_calls KPublish [SetTopicName (s [116]); SetQoS 1; SetPacketID 3; AddSubscriptionID 7]) ] = true.
 Proof. vm_compute. reflexivity. Qed.
+
+(* "Every public accessor": snapshot, in which the statements above compare
+   the decoded packet with the one that was written, is the accessors of the
+   source read in a fixed order.  tools/gosync (acc.go) translates every
+   exported accessor whose body is `return T(p.f)`, `return p.f` or `return
+   p.f.Has(C)` (72 of the 79 accessors of the 16 packet types) into an
+   accessor term; the regenerated table is the table of Model/AccIR.v, and
+   snapshot k p is that table evaluated on p, name by name (the seven
+   accessors outside the idioms - QoS, HasFlag, SubscriptionID(s), Filters -
+   and the exported UserProperties field by their hand-written meaning). *)
+Theorem C01_snapshot_is_the_accessors :
+  g_acc_table = acc_table /\
+  forall k p, snapshot k p = map (fun name => eval_named name p) (snapshot_names k).
+Proof. exact (conj sync_acc_table snapshot_by_accessors). Qed.
+Print Assumptions C01_snapshot_is_the_accessors.
